@@ -85,6 +85,7 @@ type CtrlCloud struct {
 	mutating  int
 	Plan      map[int]Fault
 	Stopped   bool
+	FailAPI   map[string]int // api -> number of next calls of that API that fail before effect (targeted fault)
 	Lis       CListener
 	Rng       *rand.Rand
 	quotaEv   []string
@@ -122,6 +123,10 @@ func (c *CtrlCloud) begin(api, eni, inst string, n4, n6 int, ips []string, mutat
 		c.mutating++
 		if !c.Stopped {
 			f = c.Plan[c.mutating]
+			if c.FailAPI[api] > 0 {
+				c.FailAPI[api]--
+				f = Fault{Kind: FaultErrBefore}
+			}
 		}
 	}
 	if f.Kind == "" {
